@@ -12,12 +12,14 @@ Only property theorems live here (helper lemmas: `Lemmas/Labels*.lean`, `Lemmas/
 -/
 import PdfVerif.Lemmas.Labels
 import PdfVerif.Lemmas.LabelRanges
+import PdfVerif.Lemmas.LabelsExtra
 import PdfVerif.Lemmas.Outline
 import PdfVerif.Lemmas.NameTree
 
 namespace PdfVerif.Props.C17
 open PdfVerif PdfVerif.Labels PdfVerif.Gen.LabelTables
-open PdfVerif.Lemmas.Labels PdfVerif.Lemmas.LabelsFinite
+open PdfVerif.Lemmas.Labels PdfVerif.Lemmas.LabelsFinite PdfVerif.Lemmas.LabelsExtra
+open PdfVerif.Spec.LabelsExtra
 
 /-! ## Text strings (ISO 32000-1 7.9.2.2, Annex D.2) -/
 
@@ -41,6 +43,28 @@ example : Spec.Labels.text [0xFE, 0xFF, 0xD8, 0x3D, 0xDE, 0x00, 0x00, 0x41] = so
   decide +kernel
 example : Spec.Labels.text [0x18, 0x80, 0xA0, 0x41] = some [0x2D8, 0x2022, 0x20AC, 0x41] := by decide +kernel
 example : decodeText [0xFE, 0xFF, 0xD8, 0x3D, 0xDE, 0x00, 0x00, 0x41] = [0x1F600, 0x41] := by decide +kernel
+
+/-- Round trip against the encoder: every list of Unicode scalar values, written as a UTF-16BE
+text string (byte-order mark, big-endian units, surrogate pairs above U+FFFF), is decoded back
+to exactly that list. -/
+theorem utf16_roundtrip (cs : List Nat) (h : ∀ c ∈ cs, isScalar c = true) :
+    decodeText (encodeUtf16BE cs) = cs := by
+  have hu : ∀ u ∈ cs.flatMap unitsOfScalar, u < 65536 := by
+    intro u hu
+    obtain ⟨c, hc, huc⟩ := List.mem_flatMap.mp hu
+    have := h c hc
+    simp only [isScalar, Bool.and_eq_true, decide_eq_true_eq] at this
+    unfold unitsOfScalar at huc
+    split at huc
+    · simp at huc; omega
+    · simp at huc; omega
+  unfold decodeText encodeUtf16BE
+  simp only [List.cons_append, List.nil_append, hasBOM, List.drop]
+  simp [decodeUnits, units_unitBytes _ hu, decodeAux_scalars cs h]
+
+/-- Non-vacuity: BMP and astral scalars are in the domain of the round trip. -/
+example : encodeUtf16BE [0x41, 0x4E2D, 0x1F600, 0x10FFFF] =
+    [0xFE, 0xFF, 0x00, 0x41, 0x4E, 0x2D, 0xD8, 0x3D, 0xDE, 0x00, 0xDB, 0xFF, 0xDF, 0xFF] := by decide +kernel
 
 /-! ## Numerals (ISO 32000-1 Table 159) -/
 
@@ -94,6 +118,17 @@ theorem alpha_partial (n : Nat) (h0 : 0 < n) (h1 : n ≤ 26) :
   rw [hn, Bool.false_or] at h
   rw [eq_of_isOk h]
   simp [Spec.Labels.alpha, h0, Except.toOption]
+
+/-- What the code computes for styles A/a, for EVERY positive value: the numeral whose reading in
+bijective base 26 (a = 1 … z = 26, spreadsheet columns) is the value — a bijection, but not the
+repeated letter of Table 159. -/
+theorem alpha_bijective (n : Nat) (h : 0 < n) :
+    ∃ t, formatIntAlpha (n : Int) = .ok t ∧ alphaValue t = n := by
+  refine ⟨alphaLoop n n [], ?_, ?_⟩
+  ·     simp [formatIntAlpha]; omega
+  · unfold alphaValue
+    rw [alphaLoop_value n n [] (Nat.le_refl n)]
+    rfl
 
 /-- The loop bound of the letters model is never the reason it stops: any fuel `≥ value` gives
 the same result (the code's `while value != 0` terminates since `(value − 1) / 26 < value`). -/
@@ -152,6 +187,26 @@ theorem C17_label_range (t : NumTree LabelDict) (n i : Nat) (hi : i < n)
     simp only [Option.some.injEq] at hr
     rw [hr] at hg
     simpa [withZero, labelsAux, firstValue] using hg
+
+/-- With `settings.STRICT = True` (no sort, ordering and "index 0" checks instead) a conforming
+tree gives exactly the labels of the default mode — nothing is rejected. -/
+theorem C17_label_strict (t : NumTree LabelDict) (n : Nat)
+    (hasc : ascending ((flatten t).map (·.1)) = true)
+    (h0 : (flatten t).head?.map (·.1) = some 0) :
+    labelsStrict t n = .ok (Labels.labels t n) := by
+  unfold labelsStrict Labels.labels
+  rw [numtree_values t hasc]
+  unfold NumTree.valuesStrict
+  rw [parse_eq_flatten, nonDecreasing_of_ascending _ hasc]
+  cases hf : flatten t with
+  | nil => simp [hf] at h0
+  | cons p tl =>
+    obtain ⟨k, d⟩ := p
+    rw [hf] at h0
+    simp only [List.head?_cons, Option.map_some, Option.some.injEq] at h0
+    subst h0
+    simp [withZero]
+
 
 /-- The model's numeral is the ISO numeral: decimal, roman (upper/lower) for `0 < v < 4000`,
 letters for `v ≤ 26` (beyond that the statement is false, see `alpha_cex`). -/
